@@ -10,6 +10,8 @@
 (*                                                                         *)
 (* Vocabulary: strings are sequences of byte values; optional = None/Some; *)
 (*   trip == [id, route, dir, hasSD, sd, hasST, st, sr, stus]              *)
+(*           sd: start date in Unix seconds, or ZeroTime for time.Time{};  *)
+(*           the flags and the values are independent data fields          *)
 (*   stu  == [seq, stop, track, sr, arr, dep], ev == [time, delay, unc]    *)
 (*   vehicle == [id (optional [id,label,plate]), trip (optional trip),     *)
 (*               pos (optional [lat,lon,bearing,odo,speed]), css, stop,    *)
@@ -31,9 +33,13 @@ U32(n) == Le(n, 4)
 U8(n) == <<n>>
 Bool(b) == <<IF b THEN 1 ELSE 0>>
 Nanos(secs) == I64(secs * 1000000000)
+ZeroTime == 0 - 1                                              \* the value of sd that stands for time.Time{}
 ZeroTimeUnix == <<0, 9, 110, 136, 241, 255, 255, 255>>      \* time.Time{}.Unix() = -62135596800, little endian
 F32(tok) == IF tok = 0 THEN <<0, 0, 0, 0>> ELSE <<0, 0, 192, 63>>                    \* 0.0, 1.5
-F64(tok) == IF tok = 0 THEN <<0, 0, 0, 0, 0, 0, 0, 0>> ELSE <<0, 0, 0, 0, 0, 0, 4, 64>>   \* 0.0, 2.5
+F64(tok) == CASE tok = 0 -> <<0, 0, 0, 0, 0, 0, 0, 0>>          \* 0.0
+              [] tok = 1 -> <<0, 0, 0, 0, 0, 0, 4, 64>>         \* 2.5
+              [] tok = 2 -> <<0, 0, 0, 0, 208, 18, 115, 65>>    \* 20000000.0
+              [] tok = 3 -> <<0, 0, 0, 16, 208, 18, 115, 65>>   \* 20000001.0 (equal to the former as a float32)
 
 Str(s) == U64(Len(s)) \o s
 OptEnc(o, E(_)) == IF IsNone(o) THEN Bool(TRUE) ELSE Bool(FALSE) \o E(Val(o))
@@ -45,7 +51,7 @@ EncStu(s) == OptEnc(s.seq, U32) \o StrPtr(s.stop) \o StrPtr(s.track) \o I32(s.sr
 
 Enc(t) ==
     Str(t.id) \o Str(t.route) \o U8(t.dir) \o Bool(t.hasSD)
-    \o (IF t.hasSD THEN I64(t.sd) ELSE ZeroTimeUnix)
+    \o (IF t.sd = ZeroTime THEN ZeroTimeUnix ELSE I64(t.sd))     \* hashed whatever the flag says
     \o Bool(t.hasST) \o Nanos(t.st) \o I64(Len(t.stus)) \o I32(t.sr)
     \o FoldL(LAMBDA acc, s : acc \o EncStu(s), <<>>, t.stus)
 
